@@ -121,7 +121,10 @@ def run(ctx):
            'witness extension degree equals the parameters\' extension degree', 'no dominating guard compares the witness and statement extension degrees')
     # (3) value fits
     def is_fit(r, a):
-        return a[0] == 'cmp' and '.v' in a[2] + a[3] and W in a[2] + a[3] and ('Shr' in a[2] + a[3] or 'checked_shr' in a[2] + a[3] or 'gens_capacity' in a[2] + a[3])
+        # a size test of the opening's value itself (not of a quantity derived from it such as value - promise)
+        txt = a[2] + a[3] if a[0] == 'cmp' else ''
+        return a[0] == 'cmp' and 'each(%s.openings).v' % W in txt and 'checked_sub' not in txt and 'minimum_value' not in txt and \
+            ('Shr' in txt or 'checked_shr' in txt or 'gens_capacity' in txt or 'pow' in txt or 'Shl' in txt)
     fit = rows_with(is_fit)
     g3 = report('value-fits', [h for h in fit if forall_over(h[1], '%s.openings' % W)],
                 'every opening\'s value is checked against the bit length', 'no guard over every opening checks that the value fits the bit length')
